@@ -120,10 +120,12 @@ Definition concat_datasets (ds : list (option colbounds)) : colbounds :=
 (* ---- the bounds= filter ---- *)
 
 (* Python float comparison; None = NaN compares False *)
-Definition num_ltb (a b : num) : bool :=
-  match a, b with Some x, Some y => Z.ltb x y | _, _ => false end.
 Definition num_gtb (a b : num) : bool :=
   match a, b with Some x, Some y => Z.gtb x y | _, _ => false end.
+Definition num_geb (a b : num) : bool :=
+  match a, b with Some x, Some y => Z.geb x y | _, _ => false end.
+Definition num_leb (a b : num) : bool :=
+  match a, b with Some x, Some y => Z.leb x y | _, _ => false end.
 
 Definition qbox := (num * num * num * num)%type.
 
@@ -134,11 +136,13 @@ Definition norm_box (q : qbox) : qbox :=
   let '(y0, y1) := if num_gtb y0 y1 then (y1, y0) else (y0, y1) in
   (x0, y0, x1, y1).
 
-(* inds = ~((df.x1 < x0) | (df.y1 < y0) | (df.x0 > x1) | (df.y0 > y1)) *)
+(* inds = (df.x1 >= x0) & (df.y1 >= y0) & (df.x0 <= x1) & (df.y0 <= y1)
+   -- a NaN extent (a partition of missing / empty geometries only) fails every
+   test and is dropped *)
 Definition keep (q : qbox) (b : bbox) : bool :=
   let '(qx0, qy0, qx1, qy1) := norm_box q in
   let '(x0, y0, x1, y1) := b in
-  negb (num_ltb x1 qx0 || num_ltb y1 qy0 || num_gtb x0 qx1 || num_gtb y0 qy1).
+  num_geb x1 qx0 && num_geb y1 qy0 && num_leb x0 qx1 && num_leb y0 qy1.
 
 Fixpoint select {A} (inds : list bool) (l : list A) : list A :=
   match inds, l with
